@@ -220,13 +220,16 @@ func main() {
 					What: "resolver differs from the model on a module split into submodules: " + d, Replay: s.Case})
 			}
 		}
-		// Go unsplit vs Go split, position-free
+		// Go unsplit vs Go split, position-free. Only error-free unsplit sets are compared: the
+		// property's sentence is about what an included submodule contributes; which of several errors
+		// of a faulty set is reported first depends on the stage that meets it, which a split may move.
 		gu := stripPos(lib.Project(u.Go.Dump, keys, true))
 		gs := stripPos(lib.Project(s.Go.Dump, keys, true))
-		compared++
 		if rescorr.HasErrors(u.Go.Dump) {
 			withErr++
+			continue
 		}
+		compared++
 		if d := rescorr.Diff(gu, gs); d != "" {
 			res.AddDisagreement(lib.Disagreement{Kind: "spec", Input: map[string]any{"unsplit": u.Case, "split": s.Case}, Go: gs, Model: gu,
 				SpecVerdict: "violates", What: "the module split into submodules differs from the unsplit module: " + d, Replay: s.Case})
